@@ -2106,11 +2106,21 @@ def rule_varint_decoders_agree(out, tier):
 
     def norm(t):
         t = re.sub(r"\s+", "", t)
+        while t.startswith("(") and t.endswith(")") and _balanced(t[1:-1]):
+            t = t[1:-1]
         t = re.sub(r"\b(local_)?buffer_ptr_?\b", "P", t)
         return t
 
     def exits(fn):
         res = []
+        # explaining locals: `bool is_last_group = (byte & 0x80) == 0;`
+        inits = {}
+        local_names = {v.get("name") for v in walk(body_of(fn)) if v.get("kind") == "VarDecl" and v.get("name")}
+        for v in walk(body_of(fn)):
+            if v.get("kind") == "VarDecl" and v.get("name") and v.get("inner"):
+                init = [c for c in v["inner"] if isinstance(c, dict)]
+                if init:
+                    inits[v["name"]] = txt(init[-1])
         for loop in walk(body_of(fn)):
             if loop.get("kind") not in ("WhileStmt", "ForStmt", "DoStmt"):
                 continue
@@ -2124,12 +2134,20 @@ def rule_varint_decoders_agree(out, tier):
                 ct = txt(cond)
                 if "buffer_end_ptr_" in ct or "Remaining" in ct or "Fill" in "".join(txt(c) for c in walk(then) if c.get("kind") in ("CallExpr", "CXXMemberCallExpr")):
                     continue  # the refill test
+                bare = re.sub(r"^[!(\s]+|[)\s]+$", "", ct)
+                if bare in inits:
+                    ct = ct.replace(bare, "(" + inits[bare] + ")")
+                # the names of locals do not matter: number them in order of appearance
+                order = []
+                for m in re.finditer(r"[A-Za-z_]\w*", ct):
+                    if m.group(0) in local_names and m.group(0) not in order:
+                        order.append(m.group(0))
+                for i, nm in enumerate(order):
+                    ct = re.sub(r"\b%s\b" % re.escape(nm), "v%d" % (i + 1), ct)
                 kinds = set()
                 for x in walk(then):
-                    if x.get("kind") == "BreakStmt":
-                        kinds.add("break")
-                    elif x.get("kind") == "ReturnStmt":
-                        kinds.add("return")
+                    if x.get("kind") in ("BreakStmt", "ReturnStmt"):
+                        kinds.add("leave")  # the decoders end with the loop: break and return are the same exit
                     elif x.get("kind") == "CXXThrowExpr":
                         kinds.add("throw")
                 for k in sorted(kinds):
